@@ -48,6 +48,9 @@ def main():
     assert o.strip() == "", "/repo is not clean: " + o
     rc, o = sh("git -C /repo apply %s" % os.path.abspath(patch))
     assert rc == 0, o
+    # the evidence file of the property records runs on the UNCHANGED tree only: put it back afterwards
+    evf = os.path.join(ROOT, "evidence", "%s.json" % prop)
+    saved_ev = open(evf, "rb").read() if os.path.exists(evf) else None
     try:
         out["checks"] = {}
         for tier in tiers:
@@ -68,6 +71,8 @@ def main():
                 break
     finally:
         sh("git -C /repo checkout -- .")
+        if saved_ev is not None:
+            open(evf, "wb").write(saved_ev)
     rc, o = sh("git -C /repo status --porcelain")
     assert o.strip() == "", "/repo not restored: " + o
     out["detected"] = any(c["exit"] != 0 for c in out["checks"].values())
